@@ -3,6 +3,7 @@ package checkers
 import (
 	"go/ast"
 	"go/token"
+	"go/types"
 	"strconv"
 
 	"github.com/go-critic/go-critic/checkers/internal/astwalk"
@@ -55,8 +56,7 @@ func (c *boolExprSimplifyChecker) VisitExpr(x ast.Expr) {
 	// this is why we record valuable info before doing it.
 	c.hasFloats = lintutil.ContainsNode(x, func(n ast.Node) bool {
 		if x, ok := n.(*ast.BinaryExpr); ok {
-			return typep.HasFloatProp(c.ctx.TypeOf(x.X).Underlying()) ||
-				typep.HasFloatProp(c.ctx.TypeOf(x.Y).Underlying())
+			return c.maybeFloat(c.ctx.TypeOf(x.X)) || c.maybeFloat(c.ctx.TypeOf(x.Y))
 		}
 		return false
 	})
@@ -65,6 +65,15 @@ func (c *boolExprSimplifyChecker) VisitExpr(x ast.Expr) {
 	if !astequal.Expr(x, y) {
 		c.warn(x, y)
 	}
+}
+
+// maybeFloat reports whether values of typ can be floating-point numbers.
+// The type set of a type parameter is not inspected: it may contain floats.
+func (c *boolExprSimplifyChecker) maybeFloat(typ types.Type) bool {
+	if _, ok := typ.(*types.TypeParam); ok {
+		return true
+	}
+	return typep.HasFloatProp(typ.Underlying())
 }
 
 func (c *boolExprSimplifyChecker) simplifyBool(x ast.Expr) ast.Expr {
